@@ -70,7 +70,9 @@ impl Prop for C02 {
                 // contents: high vote ∈ {none, A, B, A'(same number other hash)}, high certificate ∈ {none, q1, q2, q3}
                 let view = rng.gen_range(1..6u64);
                 let base = rng.gen_range(0..4u64);
-                let hvs = [None, Some(avote(view, base + 1, 1)), Some(avote(view, base + 1, 2)), Some(avote(view.saturating_sub(1), base, 1)), Some(avote(view, base + 2, 1))];
+                // A, A cast in an older view (same block, different vote), B (same number, other hash), the certified block, a higher block
+                let hvs = [None, Some(avote(view, base + 1, 1)), Some(avote(view.saturating_sub(1), base + 1, 1)), Some(avote(view.saturating_sub(2), base + 1, 1)),
+                    Some(avote(view, base + 1, 2)), Some(avote(view.saturating_sub(1), base, 1)), Some(avote(view, base + 2, 1))];
                 let all: Vec<usize> = (0..n).collect();
                 let hqs = [None, Some(acqc(n, avote(view.saturating_sub(1), base, 1), &all)), Some(acqc(n, avote(view.saturating_sub(1), base, 3), &all[..n.min(1)])),
                     Some(acqc(n, avote(view + 3, base + 1, 1), &all)), Some(acqc(n, avote(0, 0, 9), &all))];
